@@ -12,6 +12,7 @@ enum { CL_NONE = 0, CL_QUERY, CL_HELLO, CL_EMIT, CL_QLTLV, CL_ANY, CL_PAIR, CL_R
 static uint8_t g_rec_desc[20]; static unsigned g_rec_cnt; static bool g_rec_valid;
 static size_t g_last_len;
 static void *g_expect_ctx;         /* 0 = interface A */
+static bool g_two_ifaces;          /* both interfaces transmit in this harness */
 
 static void oracle_query(const vcfg *c, const uint8_t *f, size_t n);
 static void oracle_hello(const vcfg *c, const uint8_t *f, size_t n);
@@ -25,7 +26,7 @@ static void oracle_il(void *ctx, const uint8_t *f, size_t n);
 static void on_send(void *ctx, const uint8_t *f, size_t n) {
     const vcfg *c = (const vcfg *)ctx;
     if (g_class == CL_IL) { oracle_il(ctx, f, n); V_WITNESS("a frame was transmitted"); return; }
-    V_ASSERT(ctx == g_expect_ctx || (g_expect_ctx == 0 && ctx == (void *)&g_cfgA), "C02,C17: frames leave on the interface the request arrived on");
+    V_ASSERT(ctx == g_expect_ctx || (g_expect_ctx == 0 && ctx == (void *)&g_cfgA) || (g_two_ifaces && ctx == (void *)&g_cfgB), "C02,C17: frames leave on the interface the request arrived on");
     g_last_len = n;
     if (n >= 32) {
         check_tx_common(c, f, n);
